@@ -120,6 +120,35 @@ func rootsFor(prop, tier string) []Root {
 		if thorough {
 			rs = append(rs, Root{Prop: prop, Harness: "VH_C03_Labels", Params: []int{3}, MaxDecs: 2000})
 		}
+	case "C05", "C06":
+		npk := []int{0, 1, 2}
+		for cause := 0; cause < 9; cause++ {
+			for _, n := range npk {
+				for ahead := 0; ahead < 2; ahead++ {
+					if cause >= 5 && cause <= 7 && (n != 1 || ahead != 0) {
+						continue // handshake failures: no packets flow
+					}
+					if cause == 4 && n == 0 {
+						continue // no transaction, hence no handler failure and no stop cause
+					}
+					if !thorough && n == 2 && ahead == 1 && cause != 4 {
+						continue
+					}
+					rs = append(rs, Root{Prop: prop, Harness: "VH_C05_Stream", Params: []int{cause, n, ahead, 0}, MaxDecs: 4000, MaxSteps: 30000000})
+					if thorough && n >= 1 {
+						rs = append(rs, Root{Prop: prop, Harness: "VH_C05_Stream", Params: []int{cause, n, ahead, 1}, MaxDecs: 4000, MaxSteps: 30000000})
+					}
+				}
+			}
+		}
+	case "C07":
+		for _, nl := range []int{0, 1, 10} {
+			rs = append(rs, Root{Prop: prop, Harness: "VH_C07_Handshake", Params: []int{nl}, MaxDecs: 4000})
+		}
+		rs = append(rs, Root{Prop: prop, Harness: "VH_C07_Attempts", Params: []int{1}, MaxDecs: 6000, MaxSteps: 30000000})
+		if thorough {
+			rs = append(rs, Root{Prop: prop, Harness: "VH_C07_Attempts", Params: []int{2}, MaxDecs: 8000, MaxSteps: 60000000})
+		}
 	case "C08":
 		for _, p := range [][2]int{{20, 20}, {32, 8}, {8, 32}} {
 			add("VH_C08_Transport", p[0], p[1])
